@@ -214,6 +214,10 @@ def build_requests(ix, ops):
         if any(h["id"] not in ix.ids for h in pre["holdings"] + post["holdings"]):
             reqs.append((op, None, "unknown-instrument"))
             continue
+        if any(h[sd][f] != int(h[sd][f]) for h in pre["holdings"] + post["holdings"] for sd in ("long", "short") for f in ("qty", "old", "logical_old")):
+            # a share conversion with a non-integral result leaves a FRACTIONAL quantity (finding F31); the model's quantities are integers
+            reqs.append((op, None, "fractional-quantity"))
+            continue
         acct = ser_acct(ix, pre)
         line = None
         if name == "apply_trade":
